@@ -343,4 +343,79 @@ theorem fillRowsAux_blank (acc : Int) (hacc : -1 ≤ acc) (body : List Row) (hb 
       rw [hm', this.1]
     · simp only [List.map_cons, List.foldl_cons, hm]; exact this.2
 
+/-! ## composition of lines into the image -/
+
+theorem lookupLast_append {α} (a b : List ((Int × Int) × α)) (p : Int × Int) :
+    lookupLast (a ++ b) p = (lookupLast b p).or (lookupLast a p) := by
+  unfold lookupLast
+  rw [List.reverse_append, List.find?_append]
+  cases h : List.find? (fun e => e.1 == p) b.reverse <;> simp
+
+theorem lookupLast_none_iff {α} (w : List ((Int × Int) × α)) (p : Int × Int) :
+    lookupLast w p = none ↔ ∀ e ∈ w, e.1 ≠ p := by
+  unfold lookupLast
+  simp only [Option.map_eq_none_iff, List.find?_eq_none, List.mem_reverse]
+  constructor
+  · intro h e he; have := h e he; simpa using this
+  · intro h e he; have := h e he; simpa using this
+
+theorem unique_of_nodup_keys {α} (w : List ((Int × Int) × α)) (hnd : (w.map Prod.fst).Nodup) (p : Int × Int)
+    (v v' : α) (h : (p, v) ∈ w) (h' : (p, v') ∈ w) : v = v' := by
+  induction w with
+  | nil => simp at h
+  | cons e t ih =>
+    simp only [List.map_cons, List.nodup_cons] at hnd
+    rcases List.mem_cons.mp h with h1 | h1 <;> rcases List.mem_cons.mp h' with h2 | h2
+    · rw [← h1] at h2; exact ((Prod.mk.inj h2).2).symm
+    · exfalso; apply hnd.1; rw [← h1]; exact List.mem_map.mpr ⟨(p, v'), h2, rfl⟩
+    · exfalso; apply hnd.1; rw [← h2]; exact List.mem_map.mpr ⟨(p, v), h1, rfl⟩
+    · exact ih hnd.2 h1 h2
+
+theorem lookupLast_of_mem {α} (w : List ((Int × Int) × α)) (hnd : (w.map Prod.fst).Nodup) (p : Int × Int) (v : α)
+    (h : (p, v) ∈ w) : lookupLast w p = some v := by
+  cases hl : lookupLast w p with
+  | none =>
+    have := (lookupLast_none_iff w p).mp hl (p, v) h
+    exact absurd rfl this
+  | some v' =>
+    rw [unique_of_nodup_keys w hnd p v v' h (lookupLast_mem w p v' hl)]
+
+theorem nodup_map_inj {β γ} (f : β → γ) (hf : ∀ a b, f a = f b → a = b) (l : List β) (h : l.Nodup) :
+    (l.map f).Nodup := by
+  unfold List.Nodup
+  rw [List.pairwise_map]
+  exact h.imp (fun hne hfe => hne (hf _ _ hfe))
+
+theorem segWrites_keys_nodup {α} (xs : List α) (g : Seg) (w : List ((Int × Int) × α))
+    (h : segWrites xs g = some w) : (w.map Prod.fst).Nodup := by
+  unfold segWrites at h
+  split at h
+  · simp at h; subst h
+    rw [List.map_map]
+    have := place1_keys_nodup (min g.x0 g.x1) (max g.x0 g.x1) (decide (g.x1 < g.x0)) xs
+    have e : (Prod.fst ∘ fun (e : Int × α) => ((g.y0, e.1), e.2)) = (fun c => (g.y0, c)) ∘ Prod.fst := by
+      funext e; rfl
+    rw [e, ← List.map_map]
+    exact nodup_map_inj _ (fun a b hab => (Prod.mk.inj hab).2) _ this
+  · split at h
+    · simp at h; subst h
+      rw [List.map_map]
+      have := place1_keys_nodup (min g.y0 g.y1) (max g.y0 g.y1) (decide (g.y1 < g.y0)) xs
+      have e : (Prod.fst ∘ fun (e : Int × α) => ((e.1, g.x0), e.2)) = (fun r => (r, g.x0)) ∘ Prod.fst := by
+        funext e; rfl
+      rw [e, ← List.map_map]
+      exact nodup_map_inj _ (fun a b hab => (Prod.mk.inj hab).1) _ this
+    · simp at h
+
+theorem pySlice_range_getElem? (n i j k : Nat) (hj : j ≤ n) (hk : i + k < j) :
+    (pySlice (List.range n) i j)[k]? = some (i + k) := by
+  unfold pySlice
+  rw [List.getElem?_take, if_pos (by omega), List.getElem?_drop, List.getElem?_range (by omega)]
+
+theorem pySlice_range_length (n i j : Nat) (hj : j ≤ n) (hij : i ≤ j) :
+    (pySlice (List.range n) i j).length = j - i := by
+  unfold pySlice
+  simp; omega
+
+
 end Pew.Sync
